@@ -5,6 +5,7 @@ import (
 
 	"github.com/smarthome-go/homescript/v3/homescript/analyzer/ast"
 	"github.com/smarthome-go/homescript/v3/homescript/interpreter/value"
+	pAst "github.com/smarthome-go/homescript/v3/homescript/parser/ast"
 )
 
 func (self *Interpreter) instantiateSingleton(node ast.AnalyzedSingletonTypeDefinition) *value.Interrupt {
@@ -52,6 +53,11 @@ func (self *Interpreter) importItem(node ast.AnalyzedImport) *value.Interrupt {
 
 	// since the module was not found, source the imports from the builtin modules
 	for _, toImport := range node.ToImport {
+		// types, templates and triggers have no value at runtime (the compiler skips them as well)
+		if toImport.Kind != pAst.IMPORT_KIND_NORMAL {
+			continue
+		}
+
 		val, found := self.Executor.GetBuiltinImport(node.FromModule.Ident(), toImport.Ident.Ident())
 		if !found {
 			return value.NewRuntimeErr(
